@@ -378,11 +378,13 @@ impl Context {
         // it and invalidate the invariant that black objects may not point to white objects. Turn
         // the black parent object gray to prevent this.
         //
-        // NOTE: This also adds the pointer to the gray_again queue even if `header.needs_trace()`
-        // is false, but this is not harmful (just wasteful). There's no reason to call a barrier on
-        // a pointer that can't adopt other pointers, so we skip the check.
+        // NOTE: An object whose `header.needs_trace()` is false can never hold pointers, so it
+        // never needs to be re-traced. It also was never counted as traced when it turned black,
+        // so queueing it again would make `Metrics::mark_gc_untraced` take back work that was
+        // never recorded (underflowing the counter when nothing else has been traced yet).
         if self.phase == Phase::Mark
             && parent.header().color() == GcColor::Black
+            && parent.header().needs_trace()
             && child
                 .map(|c| matches!(c.header().color(), GcColor::White | GcColor::WhiteWeak))
                 .unwrap_or(true)
@@ -401,6 +403,7 @@ impl Context {
     fn backward_barrier_weak(&self, parent: GcPtr, child: GcPtr) {
         if self.phase == Phase::Mark
             && parent.header().color() == GcColor::Black
+            && parent.header().needs_trace()
             && child.header().color() == GcColor::White
         {
             // Outline the actual barrier code (which is somewhat expensive and won't be executed
